@@ -24,13 +24,16 @@ session_props.PLANS["C20"] = {
               ("c20_nochecks", ("delimited",), RW, None, None, None),
               ("c20_two_runs", ("delimited",), RW, 3000, None, None),
               ("c20_park", ("delimited",), RW + ["Park", "Resume"], 3000, None, None),
-              ("c20_again", ("delimited",), session_check.READ_ACTIONS + ["ReadAgain"], 3000, None, None)],
+              ("c20_again", ("delimited",), session_check.READ_ACTIONS + ["ReadAgain"], 3000, None, None),
+              # the container breaks off: what the checks are asked and told when a run ends with a data-format error
+              ("c20_fault", session_props.BOTH, session_check.READ_ACTIONS + ["ReaderFault"], None, None, None)],
     "thorough": [("c20_h0_t3", session_props.BOTH + ("narrow",), RW, None, None, None),
                  ("c20_h1_t3", session_props.BOTH, RW, None, None, None),
                  ("c20_nochecks", session_props.BOTH, RW, None, None, None),
                  ("c20_two_runs", session_props.BOTH, RW, None, None, None),
                  ("c20_park", session_props.BOTH, RW + ["Park", "Resume"], None, None, None),
-                 ("c20_again", session_props.BOTH, session_check.READ_ACTIONS + ["ReadAgain"], None, None, None)],
+                 ("c20_again", session_props.BOTH, session_check.READ_ACTIONS + ["ReadAgain"], None, None, None),
+                 ("c20_fault", session_props.BOTH, session_check.READ_ACTIONS + ["ReaderFault"], None, None, None)],
 }
 
 def plugin_run(vectors, count):
